@@ -492,6 +492,12 @@ def subTree (tree : List (V × V)) (k : V) : Except Err (List (V × V)) :=
   | some _ => .error (err "TypeError")
   | none => .error (err "KeyError")
 
+/-- `tree.get(keyspec, None) is STOP` -/
+def isMarked (tree : List (V × V)) (k : V) : Bool :=
+  match dget tree k with
+  | some .stop => true
+  | _ => false
+
 /-- `tree[self]` of a Limit: `[count, {}]` (a fresh one if absent) -/
 def limitState (tree : List (V × V)) (self : V) : Int × List (V × V) :=
   match dget tree self with
@@ -564,7 +570,7 @@ def gstep : GSpec → V → List (V × V) → Except Err (V × List (V × V))
     | .error e => .error e
     | .ok acc =>
       -- for keyspec, valspec in spec.items():   (one entry)
-      if (match dget tree (.obj kid) with | some .stop => true | _ => false) then
+      if isMarked tree (.obj kid) then                -- if tree.get(keyspec, None) is STOP: continue
         .ok (.stop, tree)                               -- done stays True
       else
         match key.apply target with
